@@ -3,8 +3,8 @@
 import json, os, subprocess, sys
 here = os.path.dirname(os.path.abspath(__file__))
 lean = os.path.join(os.path.dirname(here), "lean")
-obl = json.load(open(os.path.join(lean, "obligations.json")))
+obl = sorted(f[:-5] for f in os.listdir(os.path.join(lean, "obligations.d")) if f.endswith(".json"))
 targets = []
-for p in sorted(obl):
+for p in obl:
     targets += ["BiomModel.Props.%s" % p, "driver_%s" % p.lower()]
 sys.exit(subprocess.call(["lake", "build"] + targets, cwd=lean))
